@@ -495,6 +495,8 @@ class World:
         for k, p in enumerate(peers):
             zone[(fq[k], T_A)] = [rr_a(p.ip)]
         zone[(dom, T_MX)] = [rr_mx(10 * (k + 1), fq[k]) for k in range(len(peers))]
+        if sc.relay and sc.relay not in fq:
+            zone[(sc.relay, T_A)] = [rr_a(peers[0].ip)]          # a relay with a name of its own is the first peer
         for k, recs in sc.tlsa.items():
             rd = []
             for (u, s_, m, data) in recs:
@@ -520,7 +522,7 @@ class World:
             fn = dom if sc.routefile == 'exact' else '*' + dom[dom.index('.'):]
             open(os.path.join(ctl, 'smtproutes.d', fn), 'w').write('\n'.join(lines) + '\n')
         for k, f in sc.pinned.items():
-            shutil.copy(self.pki.path(f), os.path.join(ctl, 'tlshosts', fq[k] + '.pem'))
+            shutil.copy(self.pki.path(f), os.path.join(ctl, 'tlshosts', (sc.relay if k == 0 and sc.relay and sc.relay not in fq else fq[k]) + '.pem'))
         msg = os.path.join(d, 'msg')
         open(msg, 'wb').write(b'Subject: c18\r\n\r\nsecret body\r\n')
         env = dict(vlib.ENV, DNSCACHEIP=self.dns.ip)
